@@ -4,7 +4,7 @@ set -e
 N=$1
 cd /verif
 git add -A; git commit -qm "wip before merging $N" || true
-git fetch -q /tmp/agents/$N/verif family-$N:family-$N
+git fetch -q ${AGENTS_DIR:-/tmp/agents}/$N/verif family-$N:family-$N
 git merge --no-edit family-$N >/tmp/merge-$N.log 2>&1 || true
 grep -i conflict /tmp/merge-$N.log || true
 for f in lean/Main.lean lean/PV.lean; do if grep -q '<<<<<<<' $f; then python3 tools/union_merge.py --dedup $f; fi; done
